@@ -7,6 +7,7 @@ import (
 	"os"
 	"path/filepath"
 	"sort"
+	"time"
 
 	rt "github.com/superfly/litefs/internal/verifrt"
 	"github.com/superfly/ltx"
@@ -236,18 +237,19 @@ func VerifC14BatchLimit() {
 	rt.Reach("c14.batches")
 }
 
-// VerifC14UploadRacingCommit: the first upload of a database (a snapshot) is
-// acknowledged after a local transaction has committed in the meantime. What
-// the primary believes the service holds must be the position of the snapshot
-// it sent: the next sync then ships the missing transaction, and the primary is
-// never rolled back.
+// VerifC14UploadRacingCommit: the continuous backup stream; the first upload of
+// a database (a snapshot) is acknowledged after a local transaction has
+// committed in the meantime. What the primary believes the service holds must
+// be the position of the snapshot it sent: the next round then ships the
+// missing transaction, and the primary is never rolled back.
 func VerifC14UploadRacingCommit() {
-	ctx := context.Background()
 	w, chain := verifChain(1)
 	db := w.db
 	svc := &verifBackupService{FileBackupClient: NewFileBackupClient(filepath.Join(w.dir, "backup"))}
 	rt.Check(svc.Open() == nil, "backup client opens")
 	w.store.BackupClient = svc
+	w.store.BackupDelay = time.Millisecond
+	w.store.BackupFullSyncInterval = 0 // the position map is fetched once; afterwards the primary relies on what each upload returned
 	sent := chain[1]
 	var local ltx.Pos
 	svc.afterUpload = func() {
@@ -255,15 +257,22 @@ func VerifC14UploadRacingCommit() {
 		rt.Check(ok, "harness: local commit while the upload is being acknowledged")
 		local = pos
 	}
-	rt.Check(w.store.SyncBackup(ctx) == nil, "first sync succeeds")
-	after1, _ := svc.PosMap(ctx)
-	rt.Check(after1["db"] == sent, "the service holds the snapshot of the position it was sent")
-	rt.Check(db.Pos() == local && local.TXID == sent.TXID+1, "the local commit stands")
-	rt.Check(db.HWM() <= after1["db"].TXID, "published high-water mark never exceeds what the service acknowledged")
-	rt.Check(w.store.SyncBackup(ctx) == nil, "second sync succeeds")
-	after2, _ := svc.PosMap(ctx)
-	rt.Check(db.Pos() == local, "the primary is not rolled back to the service's older position")
-	rt.Check(after2["db"] == local, "the next sync ships the transaction committed during the first upload")
+	rt.Ticks = 0
+	ctx := rt.NewEnvCtx(3)
+	serr := w.store.streamBackup(ctx, false)
+	rt.Check(serr == nil || ctx.Err() != nil, "the backup stream only ends because the node shuts down")
+	if serr != nil {
+		return // shut down in the middle of a round: nothing more to say
+	}
+	rt.Check(local.TXID == sent.TXID+1 && db.Pos() == local, "the local commit stands: the primary is never rolled back to the service's older position")
+	after, _ := svc.PosMap(context.Background())
+	rt.Check(db.HWM() <= after["db"].TXID, "published high-water mark never exceeds what the service acknowledged")
+	if rt.Ticks >= 1 {
+		// the batching delay elapsed, so a second round ran before the shutdown
+		rt.Check(after["db"] == local, "the round after the first upload ships the transaction committed while that upload was acknowledged")
+		rt.Reach("c14.upload.racing.commit")
+	} else {
+		rt.Check(after["db"] == sent, "the service holds the snapshot of the position it was sent")
+	}
 	rt.Check(len(w.exits) == 0, "no fatal exit")
-	rt.Reach("c14.upload.racing.commit")
 }
